@@ -146,16 +146,16 @@ type c03Member struct {
 }
 
 type c03Run struct {
-	c       *Ctx
-	ety     *TDesc
-	pop     []*c03Member
-	byFP    map[string]int
-	capsule bool
-	vs      []cty.ValueSet
-	vsm     []*mset
-	sv      []cty.Value
-	svm     []*mset
-	orders  map[string]string // model signature -> observed key sequence
+	c        *Ctx
+	ety      *TDesc
+	pop      []*c03Member
+	byFP     map[string]int
+	capsule  bool
+	vs       []cty.ValueSet
+	vsm      []*mset
+	sv       []cty.Value
+	svm      []*mset
+	orders   map[string]string // model signature -> observed key sequence
 	ordersBy map[string]string
 }
 
